@@ -74,6 +74,8 @@ def judge_trace(prog, t, st, ot):
         return None
     if c.rsplit(".", 1)[-1] in CONTROL:
         return None
+    if st == "SUCCEEDED":
+        return None  # the terminal record exists already (a summarised context traversed again): nothing can or may be recorded (C11), divergence is C02's
     # a final error reaches the caller: if the operation's body ran in this call, the failure must have been recorded first - whatever its
     # class. (SDK-level "fatal" errors are ordinary Exceptions on their way through user code: a caller that catches them runs past the call.)
     if user_events(t, "user"):
